@@ -354,7 +354,7 @@ func c20Run(c c20Case) (v vVerdict) {
 			select {
 			case f := <-sc.queuedRequests:
 				f()
-			case <-time.After(500 * time.Millisecond):
+			case <-time.After(20 * time.Second):
 			}
 		}()
 	}
